@@ -16,6 +16,7 @@ import (
 //	swamp.applyPatchMeta                    ClearExpiredAt → zero time, else SetExpiredAt when not zero
 //	swamp.CloneAndDeleteMatchingTreasures   build, GetBeacon, ShiftMatching, deleteHandler each
 //	beacon.ShiftMatching                    walks treasuresByOrder in order, first howMany matches
+//
 // c07StripHooks removes every `if verifhook.Enabled { … }` block (balanced braces) from rendered source.
 func c07StripHooks(s string) string {
 	const open = "if verifhook.Enabled {"
@@ -143,5 +144,7 @@ func c07Claim(fs *Facts) {
 			"bcn := s.GetBeacon(beaconType, order)",
 			"shiftedTreasures, capReached := bcn.ShiftMatching(int(howMany), predicate, capPredicate, int(capMax))")
 	}
-	fs.Tri("claimPathsStandard", TriOf(std && shape), where)
+	if std && shape { // (a shape that is not found is "unknown", never "no")
+		fs.Tri("claimPathsStandard", Yes, where)
+	}
 }
